@@ -144,6 +144,9 @@ def main(chk):
                       ("make_required", (da, rda), (none_abs, none_real), (none_abs, none_real), ks),
                       ("getitem", (da, rda), (none_abs, none_real), (none_abs, none_real), [])]
         for op, (xa, xra), (xb, xrb), (xc, xrc), ks in cases:
+            # operands are described as they read back *now*: two regex programs can print the same text
+            # (`[^a]`: a negated class of one literal, or "not the literal a"), and the pool was built earlier
+            xa, xb, xc = am.a_schema(xra), am.a_schema(xrb), am.a_schema(xrc)
             ev = observe(op, xra, xrb, xrc, ks, 25 if quick else 60, chk.rng)
             ev.update({"id": len(events) + 1, "a": xa, "b": xb, "c": xc, "ks": ks})
             events.append(ev)
